@@ -5,6 +5,7 @@ package main
 
 import (
 	"fmt"
+	"strconv"
 	"go/token"
 	"go/types"
 	"sort"
@@ -1614,4 +1615,1133 @@ func o12Before(a, b ssa.Instruction) bool {
 		}
 	}
 	return reachable(a.Block(), b.Block()) && !reachable(b.Block(), a.Block())
+}
+
+// ---------- N10: unchecked type assertions are justified ----------
+
+func init() {
+	register("N10", "unchecked type assertions cannot fail: every single-result assertion x.(T) in the value and library packages is justified by a fact the program itself establishes - a dominating comma-ok test or type switch on the same value, the receiver of a method built-in (fixed by the method table), the same-type contract of CompareSameType (N6), a value taken from a container whose every insertion stores that type, or a named invariant; otherwise a script-supplied value of another type panics the host", 40, ruleN10)
+	claim("C02", "N10")
+}
+
+var n10Exceptions = map[string]string{
+	"starlark.FileProgram: .(resolve.Module)":                         "resolve.File stores a *resolve.Module in File.Module whenever it succeeds, and the assertion is dominated by that success (O2)",
+	"starlark.ExecREPLChunk: .(resolve.Module)":                       "resolve.REPLChunk stores a *resolve.Module in File.Module whenever it succeeds, and the assertion is dominated by that success (O2)",
+	"(*starlark.Function).FreeVar: .(starlark.cell)":                  "a closure's freevars tuple is built by MAKEFUNC from the operands the compiler pushes for free variables, which are cells",
+	"(*starlark.frame).Local: .(starlark.Function)":                   "debugger API: documented to be called on frames of Starlark functions only (host contract, not reachable from script input)",
+	"starlark.UnpackArgs: .()":                                        "Go API contract: the pairs argument alternates parameter names (string) and pointers; a violation is a host programming error that panics by design",
+	"starlark.UnpackArgs$1: .()":                                      "Go API contract: the pairs argument alternates parameter names (string) and pointers; a violation is a host programming error that panics by design",
+	"(*starlark.Function).CallInternal: .(starlark.Dict)":             "SETDICT/SETDICTUNIQ operand: the compiler emits them only on the accumulator of a dict display or comprehension, which MAKEDICT created (V8)",
+	"(*starlark.Function).CallInternal: .(starlark.List)":             "APPEND operand: the compiler emits it only on the accumulator of a list comprehension, which MAKELIST created (V8)",
+	"(*starlark.Function).CallInternal: .(starlark.Tuple)":            "MAKEFUNC operand: the tuple of defaults and free variables the compiler built with MAKETUPLE just before",
+	"(*starlark.Function).CallInternal: .(starlark.String)":           "LOAD operand: module name constant pushed by the compiler (a string literal by the grammar)",
+	"(*starlark.Function).CallInternal: .(starlark.String) #2":        "LOAD operand: the 'from' names are string constants pushed by the compiler",
+	"(*starlark.Function).CallInternal: .(starlark.cell)":             "cell instruction: the compiler emits SETLOCALCELL/LOCALCELL/FREECELL only for slots that the function prologue (f.Cells) or MAKEFUNC filled with cells (V5)",
+	"(*starlark.Function).CallInternal: .(starlark.cell) #2":          "cell instruction: see above",
+	"(*starlark.Function).CallInternal: .(starlark.cell) #3":          "cell instruction: see above",
+	"(lib/proto.EnumValueDescriptor).Attr: .(google.golang.org/protobuf/reflect/protoreflect.EnumDescriptor)": "protoreflect contract: the parent of an enum value descriptor is its enum descriptor",
+}
+
+func ruleN10(c *Ctx) {
+	n := 0
+	for _, fn := range c.P.Funcs {
+		pk := relPkg(fnPkgPath(fn))
+		if !isProdPkg(fnPkgPath(fn)) || !(pk == "starlark" || strings.HasPrefix(pk, "lib/") || pk == "starlarkstruct") {
+			continue
+		}
+		ord := map[string]int{}
+		eachInstr(fn, func(in ssa.Instruction) {
+			ta, ok := in.(*ssa.TypeAssert)
+			if !ok || ta.CommaOk {
+				return
+			}
+			n++
+			base := fmt.Sprintf("%s: .(%s)", fnName(fn), qualType(ta.AssertedType))
+			ord[base]++
+			key := base
+			if ord[base] > 1 {
+				key = fmt.Sprintf("%s #%d", base, ord[base])
+			}
+			pos := c.P.Pos(ta.Pos())
+			if why := n10Justify(c, fn, ta); why != "" {
+				c.ok(key, pos, why)
+			} else if r, ok := n10Exceptions[key]; ok {
+				c.except(key, pos, r)
+			} else {
+				c.viol(key, pos, fmt.Sprintf("the assertion .(%s) has a single result (it panics on failure) and nothing in the program establishes the operand's type at this point", qualType(ta.AssertedType)))
+			}
+		})
+	}
+	if n < 40 {
+		c.anchorFail("only %d unchecked type assertions found", n)
+	}
+}
+
+func n10Justify(c *Ctx, fn *ssa.Function, ta *ssa.TypeAssert) string {
+	x := ta.X
+	// (a) interface-to-interface assertion to an interface the static type already implements
+	if it, ok := ta.AssertedType.Underlying().(*types.Interface); ok {
+		if types.Implements(x.Type(), it) {
+			return "static type already implements the interface"
+		}
+	}
+	// (b) receiver of a method built-in: b.Receiver().(T)
+	if call, ok := x.(*ssa.Call); ok {
+		if cal := call.Call.StaticCallee(); cal != nil && cal.Name() == "Receiver" {
+			return "receiver of a method built-in: the method table binds this function to values of that type only"
+		}
+	}
+	// value loaded from a local that was assigned b.Receiver()
+	tr := traceValue(x)
+	for _, b := range tr.bases {
+		if call, ok := b.v.(*ssa.Call); ok {
+			if cal := call.Call.StaticCallee(); cal != nil && cal.Name() == "Receiver" && len(tr.fields) == 0 {
+				return "receiver of a method built-in: the method table binds this function to values of that type only"
+			}
+		}
+	}
+	// (c) CompareSameType / Cmp contract: the parameter y of a same-type comparison
+	top := outermost(fn)
+	if (top.Name() == "CompareSameType" || top.Name() == "Cmp") && top.Signature.Recv() != nil {
+		for _, b := range tr.bases {
+			if p, ok := b.v.(*ssa.Parameter); ok && p.Parent() == top && len(tr.fields) == 0 {
+				return "same-type comparison contract: CompareDepth calls it only when both Type() strings are equal, and Type() strings are unique per Go type (N6)"
+			}
+		}
+	}
+	// (d) dominating successful comma-ok assertion / type switch arm on the same value for the same type
+	for _, pc := range pathConds(ta.Block()) {
+		cond, neg := stripNot(pc.If.Cond)
+		ex, ok := cond.(*ssa.Extract)
+		if !ok || ex.Index != 1 {
+			continue
+		}
+		ta2, ok := ex.Tuple.(*ssa.TypeAssert)
+		if !ok || !ta2.CommaOk {
+			continue
+		}
+		if pc.Branch == neg {
+			continue // failure edge
+		}
+		if sameOperand(ta2.X, x) || sameTraceRoot(ta2.X, x) {
+			if types.Identical(ta2.AssertedType, ta.AssertedType) {
+				return "dominated by a successful comma-ok test of the same value for the same type"
+			}
+			if it, ok := ta.AssertedType.Underlying().(*types.Interface); ok && types.Implements(ta2.AssertedType, it) {
+				return "dominated by a successful test for a type that implements the asserted interface"
+			}
+		}
+	}
+	// (e) error values: err.(*T) after errors.As etc. are not Starlark values; assertion on a non-Value interface
+	//     produced by the same function's own allocation
+	if mi, ok := x.(*ssa.MakeInterface); ok {
+		if types.Identical(mi.X.Type(), ta.AssertedType) {
+			return "the interface value was made from that type in this function"
+		}
+	}
+	// (f) element of a keyword-argument pair: kwargs[i][0].(String) - the interpreter and Call build
+	//     named-argument pairs with String keys only
+	if n10KwargsKey(fn, ta) {
+		return "first element of a named-argument pair: CALL and the Go API construct these pairs with String keys (checked where the pairs are built)"
+	}
+	// (g) container with a single stored type: every value put into the local slice/map this element
+	//     comes from has the asserted type
+	if why := n10HomogeneousSource(fn, ta); why != "" {
+		return why
+	}
+	return ""
+}
+
+// n10KwargsKey: x is pair[0] where pair ranges over a []Tuple parameter named kwargs (or typed []Tuple
+// parameter of a built-in-shaped function) and T is String.
+func n10KwargsKey(fn *ssa.Function, ta *ssa.TypeAssert) bool {
+	if !isNamed(ta.AssertedType, "starlark", "String") {
+		return false
+	}
+	tr := traceValue(ta.X)
+	for _, b := range tr.bases {
+		p, ok := b.v.(*ssa.Parameter)
+		if !ok {
+			if fv, ok := b.v.(*ssa.FreeVar); ok {
+				_ = fv
+			}
+			continue
+		}
+		if sl, ok := p.Type().Underlying().(*types.Slice); ok && isNamed(sl.Elem(), "starlark", "Tuple") {
+			return true
+		}
+	}
+	return false
+}
+
+// n10HomogeneousSource: the asserted operand is an element loaded from a local
+// slice (or from elements of a local slice of Tuples) all of whose stores put in
+// values made from the asserted type, or values already tested to be of it.
+func n10HomogeneousSource(fn *ssa.Function, ta *ssa.TypeAssert) string {
+	// (g1) result of a module function all of whose value returns are made from the asserted type
+	tr := traceValue(ta.X)
+	for _, b := range tr.bases {
+		var call *ssa.Call
+		switch x := b.v.(type) {
+		case *ssa.Call:
+			call = x
+		case *ssa.Extract:
+			call, _ = x.Tuple.(*ssa.Call)
+		}
+		if call != nil && len(tr.fields) == 0 {
+			if cal := call.Call.StaticCallee(); cal != nil && cal.Blocks != nil && n10ReturnsOnly(cal, ta.AssertedType) {
+				return "result of " + fnName(cal) + ", whose every non-nil value result is made from that type"
+			}
+		}
+	}
+	// (g2) forwarded method receiver: a parameter of an unexported function whose callers all pass b.Receiver()
+	for _, b := range tr.bases {
+		p, ok := b.v.(*ssa.Parameter)
+		if !ok || len(tr.fields) != 0 || p.Parent() != fn || fn.Object() == nil || fn.Object().Exported() {
+			continue
+		}
+		idx := -1
+		for i, q := range fn.Params {
+			if q == p {
+				idx = i
+			}
+		}
+		node := curProg.CG().Nodes[fn]
+		if idx < 0 || node == nil || len(node.In) == 0 {
+			continue
+		}
+		all := true
+		for _, e := range node.In {
+			args := e.Site.Common().Args
+			if e.Site.Common().IsInvoke() || idx >= len(args) {
+				all = false
+				break
+			}
+			atr := traceValue(args[idx])
+			okArg := false
+			for _, ab := range atr.bases {
+				if c2, ok := ab.v.(*ssa.Call); ok {
+					if cal := c2.Call.StaticCallee(); cal != nil && cal.Name() == "Receiver" {
+						okArg = true
+					}
+				}
+			}
+			if !okArg {
+				all = false
+			}
+		}
+		if all {
+			return "method receiver forwarded by every caller (b.Receiver()): the method table binds the function to that type"
+		}
+	}
+	// (g3) comparator of a sort over a local slice whose elements were validated by a loop that dominates the sort
+	if fn.Parent() != nil {
+		for _, b := range tr.bases {
+			fv, ok := b.v.(*ssa.FreeVar)
+			if !ok {
+				continue
+			}
+			for _, mc := range closureSites(fn) {
+				bound := freeVarBinding(mc, fv)
+				if bound == nil {
+					continue
+				}
+				if n10ValidatedBefore(mc, bound, ta.AssertedType) {
+					return "elements of the captured slice were tested for that type (failure returns an error) by a loop that dominates the creation of this closure"
+				}
+			}
+		}
+	}
+	return ""
+}
+
+// n10ReturnsOnly: every return of fn whose first result is not nil yields a value made from type t.
+func n10ReturnsOnly(fn *ssa.Function, t types.Type) bool {
+	any := false
+	okAll := true
+	for _, b := range fn.Blocks {
+		if len(b.Instrs) == 0 {
+			continue
+		}
+		ret, ok := b.Instrs[len(b.Instrs)-1].(*ssa.Return)
+		if !ok || len(ret.Results) == 0 {
+			continue
+		}
+		var check func(v ssa.Value, depth int) bool
+		check = func(v ssa.Value, depth int) bool {
+			if depth > 4 {
+				return false
+			}
+			if isNilConst(v) {
+				return true
+			}
+			switch x := v.(type) {
+			case *ssa.MakeInterface:
+				if types.Identical(x.X.Type(), t) {
+					any = true
+					return true
+				}
+				return false
+			case *ssa.Phi:
+				for _, e := range x.Edges {
+					if !check(e, depth+1) {
+						return false
+					}
+				}
+				return true
+			}
+			return false
+		}
+		if !check(ret.Results[0], 0) {
+			okAll = false
+		}
+	}
+	return okAll && any
+}
+
+// n10ValidatedBefore: in mc's function, a comma-ok assertion to type t on an element of the slice held in
+// cell `bound`, whose failure edge returns, inside a loop whose header dominates mc.
+func n10ValidatedBefore(mc *ssa.MakeClosure, bound ssa.Value, t types.Type) bool {
+	parent := mc.Parent()
+	found := false
+	eachInstr(parent, func(in ssa.Instruction) {
+		ta, ok := in.(*ssa.TypeAssert)
+		if !ok || !ta.CommaOk || in.Parent() != parent || !types.Identical(ta.AssertedType, t) {
+			return
+		}
+		tr := traceValue(ta.X)
+		from := false
+		for _, b := range tr.bases {
+			if b.v == bound {
+				from = true
+			}
+			// the cell's stored value
+			if a, ok := bound.(*ssa.Alloc); ok {
+				for _, r := range *a.Referrers() {
+					if st, ok := r.(*ssa.Store); ok && st.Addr == a && st.Val == b.v {
+						from = true
+					}
+				}
+			}
+		}
+		if !from {
+			return
+		}
+		// failure edge leads to a return
+		var okEx *ssa.Extract
+		for _, r := range *ta.Referrers() {
+			if ex, ok := r.(*ssa.Extract); ok && ex.Index == 1 {
+				okEx = ex
+			}
+		}
+		if okEx == nil {
+			return
+		}
+		failsReturn := false
+		for _, r := range *okEx.Referrers() {
+			ifi, ok := r.(*ssa.If)
+			if !ok {
+				continue
+			}
+			fail := ifi.Block().Succs[1]
+			if len(fail.Instrs) > 0 {
+				for _, fi := range fail.Instrs {
+					if ret, ok := fi.(*ssa.Return); ok && len(ret.Results) > 0 && !isNilConst(ret.Results[len(ret.Results)-1]) {
+						failsReturn = true
+					}
+				}
+			}
+		}
+		if !failsReturn {
+			return
+		}
+		// the loop containing the test dominates the closure creation and the closure is outside that loop
+		for d := ta.Block(); d != nil; d = d.Idom() {
+			isHeader := false
+			for _, p := range d.Preds {
+				if d.Dominates(p) {
+					isHeader = true
+				}
+			}
+			if isHeader && d.Dominates(mc.Block()) && !reachable(mc.Block(), d) {
+				found = true
+			}
+		}
+	})
+	return found
+}
+
+// ---------- N9: constant indexing is length-guarded ----------
+
+func init() {
+	register("N9", "constant-index accesses are guarded by the length of the same value: every s[k] with a constant k on a string or slice in the value, library and syntax packages is dominated by a test that establishes len(s) > k for that very value (after a re-slicing the test must be repeated), or indexes a value whose length the same function fixed (a make/literal/pair); otherwise an input that ends early panics the host with index out of range", 40, ruleN9)
+	claim("C02", "N9")
+}
+
+var n9Exceptions = map[string]string{
+	"(*syntax.scanner).peekRune: sc.rest[0]":                     "eof() is false here: either rest was non-empty or readLine() returned true, which it does only after storing a non-empty line in sc.rest",
+	"(*syntax.TupleExpr).Span: x.List[0]":                        "parser invariant: a tuple expression without parentheses has at least one element (the empty tuple is always written ())",
+	"starlark.reserveAddresses: value[0]":                        "first byte of the successfully mmap'ed 4GB region",
+	"(starlark.Int).Hash: (*math/big.Int).Bits()[0]":             "the big arm of an Int never holds a value that fits in 32 bits, in particular never zero (canonical representation, rules I1/I7), so Bits() is non-empty",
+	"starlark.minmax: value[0]":                                  "keyargs is assigned the one-element tuple Tuple{extremum} on the same condition (keyFunc != nil) that guards this use",
+	"starlark.string_removefix: b.name[6]":                       "shared implementation of exactly two methods, removeprefix and removesuffix (12 characters each)",
+	"starlark.string_split: strings.Split()[0]":                  "guarded by excess = len(res) - maxsplit > 0 with maxsplit >= 0 on this branch, so res is non-empty (strings.Split never returns an empty slice for a non-empty separator)",
+	"lib/json.decode$4: s[0]":                                    "num is the number token just scanned: this branch is entered on '-' or a digit, which the scan loop consumes, so the token is non-empty",
+}
+
+func ruleN9(c *Ctx) {
+	n := 0
+	for _, fn := range c.P.Funcs {
+		pk := relPkg(fnPkgPath(fn))
+		if !isProdPkg(fnPkgPath(fn)) || !(pk == "starlark" || strings.HasPrefix(pk, "lib/") || pk == "starlarkstruct" || pk == "syntax") || strings.Contains(pk, "/cmd/") {
+			continue
+		}
+		ord := map[string]int{}
+		eachInstr(fn, func(in ssa.Instruction) {
+			var coll, idx ssa.Value
+			switch x := in.(type) {
+			case *ssa.IndexAddr:
+				coll, idx = x.X, x.Index
+			case *ssa.Index:
+				coll, idx = x.X, x.Index
+			case *ssa.Lookup:
+				if bt, ok := x.X.Type().Underlying().(*types.Basic); ok && bt.Info()&types.IsString != 0 {
+					coll, idx = x.X, x.Index
+				}
+			}
+			if coll == nil {
+				return
+			}
+			k, isK := constInt(idx)
+			if !isK {
+				return
+			}
+			switch t := coll.Type().Underlying().(type) {
+			case *types.Slice:
+			case *types.Basic:
+				if t.Info()&types.IsString == 0 {
+					return
+				}
+			default:
+				return // arrays and pointers to arrays are checked by the compiler
+			}
+			n++
+			base := fmt.Sprintf("%s: %s[%d]", fnName(fn), n9Describe(coll), k)
+			ord[base]++
+			key := base
+			if ord[base] > 1 {
+				key = fmt.Sprintf("%s #%d", base, ord[base])
+			}
+			pos := c.P.Pos(in.Pos())
+			if why := n9Guard(fn, in, coll, k); why != "" {
+				c.ok(key, pos, why)
+			} else if r, ok := n9Exceptions[key]; ok {
+				c.except(key, pos, r)
+			} else {
+				c.viol(key, pos, fmt.Sprintf("index %d is read without a dominating test that this value has more than %d element(s)", k, k))
+			}
+		})
+	}
+	if n < 40 {
+		c.anchorFail("only %d constant-index accesses found", n)
+	}
+}
+
+func n9Describe(v ssa.Value) string {
+	tr := traceValue(v)
+	var parts []string
+	for _, b := range tr.bases {
+		switch x := b.v.(type) {
+		case *ssa.Parameter:
+			parts = append(parts, x.Name())
+		case *ssa.FreeVar:
+			parts = append(parts, x.Name())
+		case *ssa.Call:
+			parts = append(parts, calleeName(x)+"()")
+		default:
+			parts = append(parts, "value")
+		}
+		break
+	}
+	for i := len(tr.fields) - 1; i >= 0; i-- {
+		parts = append(parts, tr.fields[i].Name())
+	}
+	return strings.Join(parts, ".")
+}
+
+// lenOf: is v = len(x) for x "the same" as coll?
+func n9IsLenOf(v, coll ssa.Value) bool {
+	call, ok := v.(*ssa.Call)
+	if !ok {
+		return false
+	}
+	if b, ok := call.Call.Value.(*ssa.Builtin); !ok || b.Name() != "len" || len(call.Call.Args) != 1 {
+		return false
+	}
+	return n9Same(call.Call.Args[0], coll)
+}
+
+func n9Same(a, b ssa.Value) bool {
+	if a == b || sameOperand(a, b) {
+		return true
+	}
+	// conversions between string-like named types
+	if ct, ok := a.(*ssa.ChangeType); ok && n9Same(ct.X, b) {
+		return true
+	}
+	if ct, ok := b.(*ssa.ChangeType); ok && n9Same(a, ct.X) {
+		return true
+	}
+	// loads of the same spilled local with no intervening store are not distinguished by SSA names;
+	// accept loads of the same Alloc cell when the cell has a single store (assigned once)
+	la, ok1 := a.(*ssa.UnOp)
+	lb, ok2 := b.(*ssa.UnOp)
+	if ok1 && ok2 && la.Op == token.MUL && lb.Op == token.MUL && la.X == lb.X {
+		if al, ok := la.X.(*ssa.Alloc); ok {
+			stores := 0
+			for _, r := range *al.Referrers() {
+				if st, ok := r.(*ssa.Store); ok && st.Addr == al {
+					stores++
+				}
+			}
+			return stores <= 1
+		}
+	}
+	return false
+}
+
+func n9Guard(fn *ssa.Function, at ssa.Instruction, coll ssa.Value, k int64) string {
+	// (1) the value's length is fixed by construction in this function
+	if l, ok := n9FixedLen(coll, 0); ok && l > k {
+		return "length fixed by construction in this function (literal, make or constant-bounded slice)"
+	}
+	// (2) lower bound of len(coll) established on every path (forward must-analysis with kills)
+	if lb := n9LowerBound(fn, at, coll); lb > k {
+		return "a length test of the same value holds on every path to the access"
+	}
+	// (3) positional arguments after a successful unpack with min > k
+	if p, ok := coll.(*ssa.Parameter); ok && isNamed(p.Type(), "starlark", "Tuple") {
+		found := false
+		eachInstr(fn, func(in ssa.Instruction) {
+			call, ok := in.(*ssa.Call)
+			if !ok || found {
+				return
+			}
+			cal := call.Call.StaticCallee()
+			if cal == nil || !(cal.Name() == "UnpackPositionalArgs" || cal.Name() == "unpackPositionalArgsNoEscape") || len(call.Call.Args) < 4 {
+				return
+			}
+			if call.Call.Args[1] != coll {
+				return
+			}
+			if min, ok := constInt(call.Call.Args[3]); ok && min > k && dominatedByNilErr(at.Block(), call) {
+				found = true
+			}
+		})
+		if found {
+			return "after a successful positional unpack that requires more than that many arguments"
+		}
+	}
+	// (4) element of a pair: Items() results and named-argument pairs have length 2 by construction
+	if k < 2 && isNamed(coll.Type(), "starlark", "Tuple") {
+		tr := traceValue(coll)
+		for _, b := range tr.bases {
+			if call, ok := b.v.(*ssa.Call); ok && strings.Contains(calleeName(call), "Items") {
+				return "key/value pair returned by Items()"
+			}
+			if p, ok := b.v.(*ssa.Parameter); ok {
+				if sl, ok := p.Type().Underlying().(*types.Slice); ok && isNamed(sl.Elem(), "starlark", "Tuple") {
+					return "named-argument pair (kwargs elements are pairs by the calling convention)"
+				}
+			}
+			if fv, ok := b.v.(*ssa.FreeVar); ok {
+				if sl, ok := deref(fv.Type()).Underlying().(*types.Slice); ok && isNamed(sl.Elem(), "starlark", "Tuple") {
+					return "pair taken from a captured slice of pairs"
+				}
+			}
+		}
+	}
+	// (5) first character of a built-in's name (keys of the method tables are non-empty identifiers)
+	if k == 0 {
+		if call, ok := coll.(*ssa.Call); ok {
+			if cal := call.Call.StaticCallee(); cal != nil && cal.Name() == "Name" && cal.Signature.Recv() != nil && isNamed(deref(cal.Signature.Recv().Type()), "starlark", "Builtin") {
+				return "first character of a built-in's name: names in the method tables are non-empty identifiers"
+			}
+		}
+	}
+	return ""
+}
+
+// n9FixedLen: the length of v as fixed by its construction.
+func n9FixedLen(v ssa.Value, depth int) (int64, bool) {
+	if depth > 5 {
+		return 0, false
+	}
+	switch x := v.(type) {
+	case *ssa.ChangeType:
+		return n9FixedLen(x.X, depth+1)
+	case *ssa.MakeSlice:
+		return constIntOK(x.Len)
+	case *ssa.Const:
+		if x.Value != nil && x.Value.Kind().String() == "String" {
+			return int64(len(constantStringVal(x))), true
+		}
+	case *ssa.Slice:
+		lo := int64(0)
+		loOK := x.Low == nil
+		if x.Low != nil {
+			lo, loOK = constIntOK(x.Low)
+		}
+		if x.High != nil {
+			if hi, ok := constIntOK(x.High); ok && loOK {
+				return hi - lo, true
+			}
+			// s[n : n+c]
+			if bo, ok := x.High.(*ssa.BinOp); ok && bo.Op == token.ADD && x.Low != nil {
+				if bo.X == x.Low {
+					return constIntOK(bo.Y)
+				}
+				if bo.Y == x.Low {
+					return constIntOK(bo.X)
+				}
+			}
+			return 0, false
+		}
+		if al, ok := x.X.(*ssa.Alloc); ok && loOK {
+			if arr, ok := deref(al.Type()).Underlying().(*types.Array); ok {
+				return arr.Len() - lo, true
+			}
+		}
+	case *ssa.Phi:
+		min := int64(1 << 40)
+		for _, e := range x.Edges {
+			l, ok := n9FixedLen(e, depth+1)
+			if !ok {
+				return 0, false
+			}
+			if l < min {
+				min = l
+			}
+		}
+		return min, len(x.Edges) > 0
+	case *ssa.UnOp:
+		if x.Op == token.MUL {
+			// a local cell assigned exactly once
+			if al, ok := x.X.(*ssa.Alloc); ok {
+				var val ssa.Value
+				n := 0
+				for _, r := range *al.Referrers() {
+					if st, ok := r.(*ssa.Store); ok && st.Addr == al {
+						n++
+						val = st.Val
+					}
+				}
+				if n == 1 {
+					return n9FixedLen(val, depth+1)
+				}
+			}
+		}
+	}
+	return 0, false
+}
+
+func constIntOK(v ssa.Value) (int64, bool) { return constInt(v) }
+
+func constantStringVal(c *ssa.Const) string {
+	s := c.Value.ExactString()
+	if len(s) >= 2 {
+		if u, err := strconvUnquote(s); err == nil {
+			return u
+		}
+	}
+	return s
+}
+
+// n9Kills: may instruction in change the length of the storage coll denotes?
+// SSA values (parameters, locals, results) never change; a value loaded from a
+// field or through a pointer can be changed by a store to that field or by a call.
+func n9Mutable(coll ssa.Value) (fieldOf *types.Var, mutable bool) {
+	ld, ok := coll.(*ssa.UnOp)
+	if !ok || ld.Op != token.MUL {
+		return nil, false
+	}
+	if fa, ok := ld.X.(*ssa.FieldAddr); ok {
+		st := deref(fa.X.Type()).Underlying().(*types.Struct)
+		return st.Field(fa.Field), true
+	}
+	if _, ok := ld.X.(*ssa.Alloc); ok {
+		return nil, false // local cell: handled through n9Same's single-store rule
+	}
+	return nil, true
+}
+
+// n9LowerBound: greatest lb such that len(coll) >= lb on every path from the entry to `at`.
+func n9LowerBound(fn *ssa.Function, at ssa.Instruction, coll ssa.Value) int64 {
+	const top = int64(1) << 40
+	field, mutable := n9Mutable(coll)
+	kills := func(in ssa.Instruction) bool {
+		if !mutable {
+			return false
+		}
+		switch x := in.(type) {
+		case *ssa.Store:
+			if fa, ok := x.Addr.(*ssa.FieldAddr); ok && field != nil {
+				st := deref(fa.X.Type()).Underlying().(*types.Struct)
+				return st.Field(fa.Field) == field
+			}
+			return field == nil
+		case *ssa.Call:
+			if b, ok := x.Call.Value.(*ssa.Builtin); ok {
+				_ = b
+				return false
+			}
+			// a call that cannot reach a store of the field: pure accessors of the same package with no stores at all
+			if cal := x.Call.StaticCallee(); cal != nil && cal.Blocks != nil && !hasAnyStore(cal, 0) {
+				return false
+			}
+			return true
+		case *ssa.Defer, *ssa.Go:
+			return true
+		}
+		return false
+	}
+	apply := func(lb int64, cond ssa.Value, branch bool) int64 {
+		return n9ApplyCond(lb, cond, branch, coll, 0)
+	}
+	in := map[*ssa.BasicBlock]int64{}
+	out := map[*ssa.BasicBlock]int64{}
+	for _, b := range fn.Blocks {
+		in[b], out[b] = top, top
+	}
+	transfer := func(b *ssa.BasicBlock, lb int64, upto ssa.Instruction) int64 {
+		for _, ins := range b.Instrs {
+			if ins == upto {
+				break
+			}
+			if kills(ins) {
+				lb = 0
+			}
+		}
+		return lb
+	}
+	for round := 0; round < 60; round++ {
+		changed := false
+		for _, b := range fn.Blocks {
+			var nin int64
+			if b == fn.Blocks[0] {
+				nin = 0
+			} else {
+				nin = top
+				for _, p := range b.Preds {
+					v := out[p]
+					if len(p.Instrs) > 0 {
+						if ifi, ok := p.Instrs[len(p.Instrs)-1].(*ssa.If); ok {
+							// which edge?
+							if p.Succs[0] == b && p.Succs[1] != b {
+								v = apply(v, ifi.Cond, true)
+							} else if p.Succs[1] == b && p.Succs[0] != b {
+								v = apply(v, ifi.Cond, false)
+							}
+						}
+					}
+					if v < nin {
+						nin = v
+					}
+				}
+			}
+			nout := transfer(b, nin, nil)
+			if nin != in[b] || nout != out[b] {
+				in[b], out[b] = nin, nout
+				changed = true
+			}
+		}
+		if !changed {
+			break
+		}
+	}
+	lb := transfer(at.Block(), in[at.Block()], at)
+	if lb >= top {
+		return 0 // unreachable block: no claim
+	}
+	return lb
+}
+
+func hasAnyStore(fn *ssa.Function, depth int) bool {
+	if depth > 2 {
+		return true
+	}
+	found := false
+	eachInstr(fn, func(in ssa.Instruction) {
+		switch x := in.(type) {
+		case *ssa.Store:
+			if _, ok := x.Addr.(*ssa.Alloc); !ok {
+				found = true
+			}
+		case *ssa.MapUpdate:
+			found = true
+		case *ssa.Call:
+			if _, ok := x.Call.Value.(*ssa.Builtin); ok {
+				return
+			}
+			cal := x.Call.StaticCallee()
+			if cal == nil || cal.Blocks == nil {
+				// unknown or external callee: assume pure only for a few standard-library readers
+				if cal != nil {
+					switch cal.Pkg.Pkg.Path() {
+					case "unicode/utf8", "strings", "bytes", "unicode", "math", "math/bits":
+						return
+					}
+				}
+				found = true
+				return
+			}
+			if cal != fn && hasAnyStore(cal, depth+1) {
+				found = true
+			}
+		}
+	})
+	return found
+}
+
+// n9ApplyCond refines the lower bound lb of len(coll) by taking `branch` of cond.
+func n9ApplyCond(lb int64, cond ssa.Value, branch bool, coll ssa.Value, depth int) int64 {
+	if depth > 3 {
+		return lb
+	}
+	cv, neg := stripNot(cond)
+	taken := branch != neg
+	// bool helper: if sc.eof() { ... } with eof() == (len(sc.rest) == 0)
+	if call, ok := cv.(*ssa.Call); ok {
+		cal := call.Call.StaticCallee()
+		if cal != nil && len(cal.Blocks) == 1 && len(call.Call.Args) >= 1 {
+			if ret, ok := cal.Blocks[0].Instrs[len(cal.Blocks[0].Instrs)-1].(*ssa.Return); ok && len(ret.Results) == 1 {
+				// map the callee's len(param0.f) onto coll = load of arg0.f
+				if cl, ok := coll.(*ssa.UnOp); ok && cl.Op == token.MUL {
+					if cfa, ok := cl.X.(*ssa.FieldAddr); ok && sameOperand(cfa.X, call.Call.Args[0]) {
+						if rb, ok := ret.Results[0].(*ssa.BinOp); ok {
+							// find len(load(FieldAddr(param0, f))) in rb
+							match := func(v ssa.Value) bool {
+								lc, ok := v.(*ssa.Call)
+								if !ok {
+									return false
+								}
+								if b, ok := lc.Call.Value.(*ssa.Builtin); !ok || b.Name() != "len" {
+									return false
+								}
+								ld, ok := lc.Call.Args[0].(*ssa.UnOp)
+								if !ok || ld.Op != token.MUL {
+									return false
+								}
+								fa, ok := ld.X.(*ssa.FieldAddr)
+								return ok && fa.Field == cfa.Field && len(cal.Params) > 0 && fa.X == cal.Params[0]
+							}
+							var c int64
+							var okc bool
+							op := rb.Op
+							if match(rb.X) {
+								c, okc = constInt(rb.Y)
+							} else if match(rb.Y) {
+								c, okc = constInt(rb.X)
+								op = i9Flip(op)
+							}
+							if okc {
+								if !taken {
+									op = i9Neg(op)
+								}
+								return n9Refine(lb, op, c)
+							}
+						}
+					}
+				}
+			}
+		}
+		return lb
+	}
+	b, ok := cv.(*ssa.BinOp)
+	if !ok {
+		return lb
+	}
+	// coll != "" / coll == ""
+	if bt, isB := coll.Type().Underlying().(*types.Basic); isB && bt.Info()&types.IsString != 0 {
+		isEmpty := func(v ssa.Value) bool {
+			c, ok := v.(*ssa.Const)
+			return ok && c.Value != nil && c.Value.ExactString() == `""`
+		}
+		if (n9Same(b.X, coll) && isEmpty(b.Y)) || (n9Same(b.Y, coll) && isEmpty(b.X)) {
+			op := b.Op
+			if !taken {
+				op = i9Neg(op)
+			}
+			return n9Refine(lb, op, 0)
+		}
+	}
+	op := b.Op
+	var other ssa.Value
+	if n9IsLenOf(b.X, coll) {
+		other = b.Y
+	} else if n9IsLenOf(b.Y, coll) {
+		other = b.X
+		op = i9Flip(op)
+	} else {
+		return lb
+	}
+	c, isK := constInt(other)
+	if !isK {
+		return lb
+	}
+	if !taken {
+		op = i9Neg(op)
+	}
+	return n9Refine(lb, op, c)
+}
+
+// n9Refine: new lower bound of n given n >= lb and (n op c).
+func n9Refine(lb int64, op token.Token, c int64) int64 {
+	switch op {
+	case token.GTR:
+		if c+1 > lb {
+			return c + 1
+		}
+	case token.GEQ, token.EQL:
+		if c > lb {
+			return c
+		}
+	case token.NEQ:
+		if c == lb {
+			return lb + 1
+		}
+	}
+	return lb
+}
+
+// n9CondEstablishes: taking `branch` of cond implies len(coll) > k.
+func n9CondEstablishes(cond ssa.Value, branch bool, coll ssa.Value, k int64, depth int) bool {
+	if depth > 4 {
+		return false
+	}
+	cv, neg := stripNot(cond)
+	taken := branch != neg
+	b, ok := cv.(*ssa.BinOp)
+	if !ok {
+		return false
+	}
+	// coll != "" / coll == ""
+	if bt, isB := coll.Type().Underlying().(*types.Basic); isB && bt.Info()&types.IsString != 0 && k == 0 {
+		isEmpty := func(v ssa.Value) bool {
+			c, ok := v.(*ssa.Const)
+			return ok && c.Value != nil && c.Value.ExactString() == `""`
+		}
+		if (n9Same(b.X, coll) && isEmpty(b.Y)) || (n9Same(b.Y, coll) && isEmpty(b.X)) {
+			if (b.Op == token.NEQ && taken) || (b.Op == token.EQL && !taken) {
+				return true
+			}
+		}
+	}
+	op := b.Op
+	var lenSide, other ssa.Value
+	if n9IsLenOf(b.X, coll) {
+		lenSide, other = b.X, b.Y
+	} else if n9IsLenOf(b.Y, coll) {
+		lenSide, other = b.Y, b.X
+		op = i9Flip(op)
+	}
+	if lenSide == nil {
+		return false
+	}
+	c, isK := constInt(other)
+	if !isK {
+		return false
+	}
+	if !taken {
+		op = i9Neg(op)
+	}
+	switch op {
+	case token.GTR:
+		return c >= k
+	case token.GEQ:
+		return c > k
+	case token.EQL:
+		return c > k
+	case token.NEQ:
+		return k == 0 && c == 0
+	}
+	return false
+}
+
+func strconvUnquote(s string) (string, error) { return strconv.Unquote(s) }
+
+// ---------- I2: arguments of the unchecked small-int constructor are in range ----------
+
+func init() {
+	register("I2", "the unchecked small constructor only sees 32-bit values: every argument of makeSmallInt is a constant in range, the small arm of another Int, a bitwise combination (& | ^ &^ ^x) or floored remainder of such values, or is dominated by the int32 range test / isSmall; anything computed by + - * << or negation must go through MakeInt64 (-(-2^31) does not fit), otherwise the packed representation treats the number as a pointer", 6, ruleI2)
+	claim("C10", "I2")
+	claim("C02", "I2")
+}
+
+func ruleI2(c *Ctx) {
+	n := 0
+	for _, fn := range append(append([]*ssa.Function{}, c.P.Funcs...), c.P.InitFuncs...) {
+		if relPkg(fnPkgPath(fn)) != "starlark" {
+			continue
+		}
+		ord := 0
+		eachInstr(fn, func(in ssa.Instruction) {
+			call, ok := in.(*ssa.Call)
+			if !ok {
+				return
+			}
+			cal := call.Call.StaticCallee()
+			if cal == nil || cal.Name() != "makeSmallInt" || len(call.Call.Args) != 1 {
+				return
+			}
+			n++
+			ord++
+			key := fmt.Sprintf("%s: makeSmallInt #%d", fnName(fn), ord)
+			if why := i2Small(call.Call.Args[0], call.Block(), 0); why != "" {
+				c.ok(key, c.P.Pos(call.Pos()), why)
+			} else {
+				c.viol(key, c.P.Pos(call.Pos()), "the argument of makeSmallInt is not shown to fit in 32 bits (it is computed, not a small arm, a bitwise combination of small arms, or range-tested): a value outside int32 would be stored unchecked, and the address-space representation would dereference it as a pointer")
+			}
+		})
+	}
+	if n < 6 {
+		c.anchorFail("only %d makeSmallInt calls found", n)
+	}
+}
+
+func isSmallArm(v ssa.Value) bool {
+	ex, ok := v.(*ssa.Extract)
+	if !ok || ex.Index != 0 {
+		return false
+	}
+	call, ok := ex.Tuple.(*ssa.Call)
+	if !ok {
+		return false
+	}
+	cal := call.Call.StaticCallee()
+	return cal != nil && cal.Name() == "get" && cal.Signature.Recv() != nil && isNamed(cal.Signature.Recv().Type(), "starlark", "Int")
+}
+
+func i2Small(v ssa.Value, at *ssa.BasicBlock, depth int) string {
+	if depth > 6 {
+		return ""
+	}
+	if k, ok := constInt(v); ok {
+		if k >= -(1<<31) && k <= (1<<31)-1 {
+			return "constant in range"
+		}
+		return ""
+	}
+	if isSmallArm(v) {
+		return "small arm of an Int"
+	}
+	switch x := v.(type) {
+	case *ssa.BinOp:
+		switch x.Op {
+		case token.AND, token.OR, token.XOR, token.AND_NOT:
+			if i2Small(x.X, at, depth+1) != "" && i2Small(x.Y, at, depth+1) != "" {
+				return "bitwise combination of 32-bit values"
+			}
+		case token.REM:
+			if i2Small(x.Y, at, depth+1) != "" {
+				return "remainder by a 32-bit divisor"
+			}
+		case token.ADD:
+			// floored remainder: (a % b) + b
+			if r, ok := x.X.(*ssa.BinOp); ok && r.Op == token.REM && r.Y == x.Y && i2Small(x.Y, at, depth+1) != "" {
+				return "floored remainder (rem + divisor under the sign test)"
+			}
+			if ph, ok := x.X.(*ssa.Phi); ok {
+				_ = ph
+			}
+		}
+	case *ssa.UnOp:
+		if x.Op == token.XOR && i2Small(x.X, at, depth+1) != "" {
+			return "bitwise complement of a 32-bit value"
+		}
+	case *ssa.Phi:
+		for _, e := range x.Edges {
+			if e == v {
+				continue
+			}
+			if i2Small(e, at, depth+1) == "" {
+				return ""
+			}
+		}
+		return "all incoming values fit"
+	case *ssa.Convert:
+		if bt, ok := x.X.Type().Underlying().(*types.Basic); ok {
+			switch bt.Kind() {
+			case types.Int8, types.Int16, types.Int32, types.Uint8, types.Uint16:
+				return "widened from a narrower type"
+			}
+		}
+	}
+	// dominating range test on v (or on the value v was converted from / read from)
+	cands := []ssa.Value{v}
+	if cv, ok := v.(*ssa.Convert); ok {
+		cands = append(cands, cv.X)
+	}
+	var recvOfInt64 ssa.Value
+	if call, ok := v.(*ssa.Call); ok {
+		if cal := call.Call.StaticCallee(); cal != nil && cal.Name() == "Int64" && len(call.Call.Args) == 1 {
+			recvOfInt64 = call.Call.Args[0]
+		}
+	}
+	lower, upper := false, false
+	for _, pc := range pathConds(at) {
+		cond, neg := stripNot(pc.If.Cond)
+		taken := pc.Branch != neg
+		if call, ok := cond.(*ssa.Call); ok && recvOfInt64 != nil {
+			if cal := call.Call.StaticCallee(); cal != nil && cal.Name() == "isSmall" && len(call.Call.Args) == 1 && call.Call.Args[0] == recvOfInt64 && taken {
+				return "under isSmall of the same big.Int"
+			}
+		}
+		bo, ok := cond.(*ssa.BinOp)
+		if !ok {
+			continue
+		}
+		for _, cv := range cands {
+			op := bo.Op
+			var k int64
+			var okk bool
+			if bo.X == cv {
+				k, okk = constInt(bo.Y)
+			} else if bo.Y == cv {
+				k, okk = constInt(bo.X)
+				op = i9Flip(op)
+			}
+			if !okk {
+				continue
+			}
+			if !taken {
+				op = i9Neg(op)
+			}
+			switch op {
+			case token.LEQ:
+				if k <= (1<<31)-1 {
+					upper = true
+				}
+			case token.LSS:
+				if k <= (1 << 31) {
+					upper = true
+				}
+			case token.GEQ:
+				if k >= -(1 << 31) {
+					lower = true
+				}
+			case token.GTR:
+				if k >= -(1<<31)-1 {
+					lower = true
+				}
+			}
+			if bt, ok := cv.Type().Underlying().(*types.Basic); ok && bt.Info()&types.IsUnsigned != 0 {
+				lower = true
+			}
+		}
+	}
+	if lower && upper {
+		return "dominated by the int32 range test"
+	}
+	return ""
 }
